@@ -254,6 +254,7 @@ def shards(tier):
         sh.append({"kind": "walk", "n": 1500 if th else 120, "maxsteps": 300 if th else 80})
     for i in range(4):
         sh.append({"kind": "circuit_ping", "n": 1500 if th else 150})
+    sh.append({"kind": "reopen"})
     return sh
 
 
@@ -328,7 +329,7 @@ def _walk_body(ctx, maxsteps):
 
 # verdicts of the circuit harness that are about packet-ID translation (forward: emitted wire IDs, injected IDs, ping rewriting;
 # backward: the IDs acknowledgements are translated to)
-_CIRCUIT_SIGS = ("ping:", "emit:", "inject:", "acks:", "retake:id", "drop:ack-id")
+_CIRCUIT_SIGS = ("ping:", "emit:", "inject:", "acks:", "retake:id", "drop:ack-id", "ids:")
 
 
 def _circuit_ping(ctx, n):
@@ -362,8 +363,67 @@ def _circuit_ping(ctx, n):
         lambda t: ([("zero_based",)] if t[0] == 0 else []) + list(t[1]))}), body, n)
 
 
+def reopen_laws(case):
+    """a viewer repeats its circuit-opening request on a circuit that is open and alive (its acknowledgement got lost): the circuit -
+    and with it the whole ID translation state of both directions - stays what it is"""
+    from hippolyzer.lib.base.message.message import Message, Block
+    from hippolyzer.lib.base.network.transport import Direction
+    from hippolyzer.lib.base.test_utils import MockTransport
+    from hippolyzer.lib.proxy.sessions import SessionManager
+    from hippolyzer.lib.proxy.settings import ProxySettings
+    from hippolyzer.lib.proxy.addons import AddonManager
+    from hippolyzer.lib.base.datatypes import UUID
+    n_out, n_in, seen_out, seen_in = case["reopen"]
+    sm = SessionManager(ProxySettings())
+    AddonManager.init([], sm, addon_objects=[])
+    out = []
+    try:
+        sess = sm.create_session({"session_id": UUID(int=1), "secure_session_id": UUID(int=2), "agent_id": UUID(int=3), "circuit_code": 7,
+                                  "sim_ip": "10.9.0.1", "sim_port": 13000, "region_x": 1000, "region_y": 1000, "seed_capability": "https://s/seed"})
+        tr = MockTransport()
+        addr = ("10.9.0.1", 13000)
+        if not sess.open_circuit(("127.0.0.1", 5), addr, tr):
+            return [("harness:open", "could not open the circuit")]
+        circ = sess.regions[0].circuit
+        for pid in range(1, seen_out + 1):
+            circ.send(Message("AgentPause", Block("AgentData", AgentID=UUID(int=3), SessionID=UUID(int=1), SerialNum=pid), packet_id=pid, direction=Direction.OUT))
+        for pid in range(1, seen_in + 1):
+            circ.send(Message("AgentMovementComplete", packet_id=pid, direction=Direction.IN))
+        for _ in range(n_out):
+            circ.send(Message("AgentPause", Block("AgentData", AgentID=UUID(int=3), SessionID=UUID(int=1), SerialNum=0), direction=Direction.OUT))
+        for _ in range(n_in):
+            circ.send(Message("AgentMovementComplete", direction=Direction.IN))
+        before = {(d, o): (circ.out_injections if d == "out" else circ.in_injections).get_effective_id(o)
+                  for d, top in (("out", seen_out), ("in", seen_in)) for o in range(1, top + 3)}
+        ok = sess.open_circuit(("127.0.0.1", 5), addr, tr)
+        circ2 = sess.regions[0].circuit
+        if not ok:
+            out.append(("reopen:refused", "re-opening an open circuit returned %r" % (ok,)))
+        after = {(d, o): (circ2.out_injections if d == "out" else circ2.in_injections).get_effective_id(o) for (d, o) in before}
+        if after != before:
+            diff = next(k for k in before if before[k] != after[k])
+            out.append(("reopen:translation-reset", "after a repeated circuit-opening request %s packet %d translates to %d, before to %d" % (
+                diff[0], diff[1], after[diff], before[diff])))
+    finally:
+        try:
+            AddonManager.shutdown()
+        except Exception:
+            pass
+        AddonManager.FRESH_ADDON_MODULES.clear()
+    return out
+
+
 def run_shard(ctx, shard):
-    if shard["kind"] == "circuit_ping":
+    if shard["kind"] == "reopen":
+        import itertools
+        n = 0
+        for combo in itertools.product(range(0, 3), range(0, 3), (0, 1, 4), (0, 2)):
+            n += 1
+            res = reopen_laws({"reopen": list(combo)})
+            if res:
+                ctx.report({"reopen": list(combo)}, res)
+        ctx.bulk(n, n - 6, {"reopen_cases": n}, {"reopen": [1, 1, 4, 2]})
+    elif shard["kind"] == "circuit_ping":
         _circuit_ping(ctx, shard["n"])
     elif shard["kind"] == "enum":
         _enum(ctx, shard["maxlen"], shard["prefix"], shard["depth"])
@@ -372,6 +432,8 @@ def run_shard(ctx, shard):
 
 
 def replay(ctx, case):
+    if isinstance(case, dict) and "reopen" in case:
+        return reopen_laws(case)
     if isinstance(case, dict) and "events" in case:
         from checks import c05
         h = c05.Harness(wire=case["wire"])
